@@ -7,34 +7,66 @@ are generated from it (build/gen/proofs_<crate>.rs) on every run.
 STUBSETS = {
     # S-STR: fixed-capacity String model
     'str': [
-        ('std::string::String::new', 'crate::stubs::s_new'),
-        ('std::string::String::reserve', 'crate::stubs::s_reserve'),
-        ('std::string::String::push', 'crate::stubs::s_push'),
-        ('<std::string::String as std::convert::From<&str>>::from', 'crate::stubs::s_from'),
-        ('<str as std::borrow::ToOwned>::to_owned', 'crate::stubs::s_to_owned'),
+        ('std::string::String::new', '$P::stubs::s_new'),
+        ('std::string::String::reserve', '$P::stubs::s_reserve'),
+        ('std::string::String::push', '$P::stubs::s_push'),
+        ('<std::string::String as std::convert::From<&str>>::from', '$P::stubs::s_from'),
+        ('<str as std::borrow::ToOwned>::to_owned', '$P::stubs::s_to_owned'),
     ],
     # S-FMT
-    'fmt': [('alloc::fmt::format', 'crate::stubs::s_format')],
+    'fmt': [('alloc::fmt::format', '$P::stubs::s_format')],
     # S-ONCE
-    'once': [('std::sync::Once::call_once', 'crate::stubs::s_call_once')],
+    'once': [('std::sync::Once::call_once', '$P::stubs::s_call_once')],
 }
 
 STUBSETS['case'] = [
-    ('core::unicode::conversions::to_lower', 'crate::stubs::st_to_lower'),
-    ('core::unicode::unicode_data::lowercase::lookup', 'crate::stubs::st_lowercase_lookup'),
+    ('core::unicode::conversions::to_lower', '$P::stubs::st_to_lower'),
+    ('core::unicode::unicode_data::lowercase::lookup', '$P::stubs::st_lowercase_lookup'),
 ]
-STUBSETS['width'] = [('precis_profiles::usernames::get_decomposition_mapping', 'crate::stubs::st_width')]
+STUBSETS['width'] = [('precis_profiles::usernames::get_decomposition_mapping', '$P::stubs::st_width')]
 
-STUBSETS['compat'] = [('precis_core::common::has_compat', 'crate::stubs::st_has_compat')]
+STUBSETS['compat'] = [('precis_core::common::has_compat', '$P::stubs::st_has_compat')]
 
-STUBSETS['pred'] = [('precis_core::common::' + a, 'crate::stubs::' + b) for a, b in [
+STUBSETS['pred'] = [('precis_core::common::' + a, '$P::stubs::' + b) for a, b in [
     ('get_exception_val', 'sp_exception'), ('get_backward_compatible_val', 'sp_backward'), ('is_unassigned', 'sp_unassigned'),
     ('is_ascii7', 'sp_ascii7'), ('is_join_control', 'sp_join_control'), ('is_old_hangul_jamo', 'sp_old_hangul_jamo'),
     ('is_precis_ignorable_property', 'sp_ignorable'), ('is_control', 'sp_control'), ('has_compat', 'sp_has_compat'),
     ('is_letter_digit', 'sp_letter_digit'), ('is_other_letter_digit', 'sp_other_letter_digit'), ('is_space', 'sp_space'),
     ('is_symbol', 'sp_symbol'), ('is_punctuation', 'sp_punctuation')]]
 
+STUBSETS['ctx'] = [('precis_core::common::' + a, '$P::stubs::' + b) for a, b in [
+    ('is_virama', 'sc_virama'), ('is_greek', 'sc_greek'), ('is_hebrew', 'sc_hebrew'), ('is_hiragana', 'sc_hiragana'),
+    ('is_katakana', 'sc_katakana'), ('is_han', 'sc_han'), ('is_dual_joining', 'sc_dual'), ('is_left_joining', 'sc_left'),
+    ('is_right_joining', 'sc_right'), ('is_transparent', 'sc_transparent')]]
+
+STUBSETS['dpv'] = [('precis_core::stringclasses::get_derived_property_value', '$P::stubs::st_dpv')]
+
+STUBSETS['rule'] = [('precis_core::context::get_context_rule', '$P::stubs::sr_get_rule')]
+
+STUBSETS['bidi'] = [('crate::bidi::bidi_class_cp', '$P::stubs::st_bidi_class_cp')]
+STUBSETS['bidiw'] = [('crate::bidi::bidi_class_cp', '$P::stubs::st_bidi_class_witness')]
+
+STUBSETS['tools'] = [
+    ('alloc::fmt::format', '$P::stubs::s_format'),
+    ('ucd_parse::Codepoint::from_u32', '$P::stubs::s_cp_from_u32'),
+    ('std::vec::Vec::push', '$P::stubs::s_vec_push'),
+    ('std::vec::Vec::<T>::new', '$P::stubs::s_vec_new'),
+]
+
 STUB_DOC = {
+    'tools': 'S-FMT (format! returns an empty String), S-CP (ucd_parse::Codepoint::from_u32 is Ok for n <= 0x10FFFF, cutting the '
+             'io::Error error path) and S-VEC (Vec::push without growth into vectors the harness pre-sizes; overflow = inconclusive)',
+    'bidiw': 'S-BIDI-W: bidi::bidi_class_cp replaced by the UnicodeData 16.0.0 oracle restricted to one witness character per Bidi '
+             'class (any other code point = inconclusive); discharged by the Layer A harnesses c09_class_chunk_*',
+    'bidi': 'S-BIDI: bidi::bidi_class_cp replaced by the UnicodeData 16.0.0 oracle (default L for unassigned code points); '
+            'discharged on every assigned code point by the Layer A harnesses c09_class_chunk_*',
+    'rule': 'S-RULE: context::get_context_rule replaced by an ARBITRARY registry (solver-chosen per character) whose rules return '
+            'solver-chosen outcomes per offset: allows()/allowed_by_context_rule are decided for every registry and rule behaviour; '
+            'the real registry and rules are decided by the C03 harnesses',
+    'dpv': 'S-DPV: stringclasses::get_derived_property_value replaced by the oracle decision list over the raw 6.3.0 UCD (keeps the '
+           'class callbacks); discharged for every u32 by the C14 harnesses',
+    'ctx': 'S-CTX: the ten context table predicates of precis_core::common (virama, scripts, joining types) replaced by oracle '
+           'functions recomputed from the raw 6.3.0 UCD; discharged for every code point by the Layer A harnesses c03_nb_*',
     'pred': 'S-PRED: each table predicate of precis_core::common returns an arbitrary outcome fixed by the solver for the run '
             '(sound for a harness that evaluates a single code point, because the predicates are pure functions of it); '
             'Exceptions/BackwardCompatible values range over the class-independent values',
@@ -49,6 +81,9 @@ STUB_DOC = {
     'fmt': 'S-FMT: alloc::fmt::format returns an empty String (error messages are not part of any property)',
     'once': 'S-ONCE: Once::call_once runs the closure in place (single-threaded model of lazy init)',
 }
+
+
+CRATE_PREFIX = {'ext': 'crate', 'profiles': 'crate::bidi::pv', 'tools': 'crate::generators::ucd_generator::pv'}
 
 
 class H:
@@ -90,6 +125,7 @@ class H:
 
     def stub_pairs(self):
         out = []
+        pre = CRATE_PREFIX[self.crate]
         for s in self.stubs:
             if s.startswith('pred-except:'):
                 keep = s.split(':', 1)[1]
@@ -98,7 +134,7 @@ class H:
             out.extend(STUBSETS[s])
         for t, r, _ in self.extra_stubs:
             out.append((t, r))
-        return out
+        return [(t, r.replace('$P', pre)) for t, r in out]
 
     def stub_docs(self):
         out = []
@@ -125,190 +161,321 @@ F14 = ['stringclasses::get_derived_property_value', 'IdentifierClass/FreeformCla
 
 HARNESSES = [
     # ---------------------------------------------------------------- C18
-    H('C18', 'c18_cmp_total', 'crate::c18::cmp_total', funcs=F_CMP, timeout=300,
+    H('C18', 'c18_cmp_total', '$P::c18::cmp_total', funcs=F_CMP, timeout=300,
       bound='loop-free; entry kind, start<=end and cp range over all 32-bit values: complete'),
-    H('C18', 'c18_cmp_monotone', 'crate::c18::cmp_monotone', funcs=F_CMP, timeout=300,
+    H('C18', 'c18_cmp_monotone', '$P::c18::cmp_monotone', funcs=F_CMP, timeout=300,
       bound='loop-free; two entries with end1 < start2 and any cp, all 32-bit values: complete'),
 
     # ---------------------------------------------------------------- C13
-    H('C13', 'c13_stabilize_any_fn', 'crate::c13::stabilize_any_fn', unwind=7, timeout=600,
+    H('C13', 'c13_stabilize_any_fn', '$P::c13::stabilize_any_fn', unwind=7, timeout=600,
       funcs=['precis_core::profile::stabilize', 'Cow<str> == Cow<str>', 'Cow::into_owned'],
       bound='f = any of the 6^5 functions on 5 distinct strings (next string or typed failure), any start, '
             'unchanged results borrowed or owned; unwind 7 (loop 0..=3 and memcmp of <= 4 bytes)'),
 
     # ---------------------------------------------------------------- C12
-    H('C12', 'c12_one_char', 'crate::c12::one_char', unwind=5, stubs=('str',), timeout=600,
+    H('C12', 'c12_one_char', '$P::c12::one_char', unwind=5, stubs=('str',), timeout=600,
       funcs=['Nickname::additional_mapping_rule (trim_spaces, find_disallowed_space)',
              'OpaqueString::additional_mapping_rule', 'common::is_space_separator', 'common::is_non_ascii_space'] + F_SEARCH,
       bound='one character, every Unicode scalar value'),
-    H('C12', 'c12_nick_map_n3', 'crate::c12::nick_map::<3, 12, _>', unwind=5, stubs=('str',), timeout=900,
+    H('C12', 'c12_nick_map_n3', '$P::c12::nick_map::<3, 12, _>', unwind=5, stubs=('str',), timeout=900,
       funcs=['Nickname::additional_mapping_rule (trim_spaces, find_disallowed_space)', 'common::is_space_separator'] + F_SEARCH,
       bound='strings of 0..=3 characters, every character any Unicode scalar value (all UTF-8 length mixes)'),
-    H('C12', 'c12_opaque_map_n3', 'crate::c12::opaque_map::<3, 12, _>', unwind=5, stubs=('str',), timeout=900,
+    H('C12', 'c12_opaque_map_n3', '$P::c12::opaque_map::<3, 12, _>', unwind=5, stubs=('str',), timeout=900,
       funcs=['OpaqueString::additional_mapping_rule', 'common::is_non_ascii_space', 'common::is_space_separator'] + F_SEARCH,
       bound='strings of 0..=3 characters, every character any Unicode scalar value'),
-    H('C12', 'c12_nick_map_n5', 'crate::c12::nick_map::<5, 20, _>', unwind=7, stubs=('str',), tiers=T, timeout=3000, mem_gb=20,
+    H('C12', 'c12_nick_map_n5', '$P::c12::nick_map::<5, 20, _>', unwind=7, stubs=('str',), tiers=T, timeout=3000, mem_gb=20,
       funcs=['Nickname::additional_mapping_rule (trim_spaces, find_disallowed_space)', 'common::is_space_separator'] + F_SEARCH,
       bound='strings of 0..=5 characters, every character any Unicode scalar value'),
-    H('C12', 'c12_opaque_map_n5', 'crate::c12::opaque_map::<5, 20, _>', unwind=7, stubs=('str',), tiers=T, timeout=3000, mem_gb=20,
+    H('C12', 'c12_opaque_map_n5', '$P::c12::opaque_map::<5, 20, _>', unwind=7, stubs=('str',), tiers=T, timeout=3000, mem_gb=20,
       funcs=['OpaqueString::additional_mapping_rule', 'common::is_non_ascii_space'] + F_SEARCH,
       bound='strings of 0..=5 characters, every character any Unicode scalar value'),
 
     # ---------------------------------------------------------------- C10
-    H('C10', 'c10_case_exact_n1', 'crate::c10::case_exact::<1, 4, 3, _>', unwind=4, stubs=('str',), timeout=900,
+    H('C10', 'c10_case_exact_n1', '$P::c10::case_exact::<1, 4, 3, _>', unwind=4, stubs=('str',), timeout=900,
       unwindset=(('16binary_search_by', 13), ('17case_mapping_rule', 2), ('10next_match', 2), ('8try_fold', 4), ('18try_from_fn_erased', 4)),
       funcs=['common::case_mapping_rule (via UsernameCaseMapped::case_mapping_rule)', 'common::has_lowercase_mapping', 'char::is_lowercase',
              'char::to_lowercase (core::unicode conversions tables)'],
       bound='exactly one character, every Unicode scalar value', expect_unsat_cover=('COVER: unchanged 3/4-byte character first, mapped character last',)),
-    H('C10', 'c10_case_exact_n2', 'crate::c10::case_exact::<2, 8, 6, _>', unwind=7, stubs=('str',), tiers=T, timeout=3400, mem_gb=24,
+    H('C10', 'c10_case_exact_n2', '$P::c10::case_exact::<2, 8, 6, _>', unwind=7, stubs=('str',), tiers=T, timeout=3400, mem_gb=24,
       unwindset=(('16binary_search_by', 13), ('17case_mapping_rule', 3), ('10next_match', 3), ('8try_fold', 4), ('18try_from_fn_erased', 4)),
       funcs=['common::case_mapping_rule', 'common::has_lowercase_mapping', 'char::is_lowercase', 'char::to_lowercase'],
       bound='exactly two characters, each any Unicode scalar value'),
-    H('C10', 'c10_model_valid', 'crate::c10::model_valid', unwind=13, timeout=600,
+    H('C10', 'c10_model_valid', '$P::c10::model_valid', unwind=13, timeout=600,
       funcs=['char::to_lowercase', 'char::is_lowercase (real std tables, concrete witnesses)'],
       bound='every character of the witness alphabet SIGMA_CASE'),
-    H('C10', 'c10_case_sigma_n3', 'crate::c10::case_sigma::<3, 12, 9, _>', unwind=11, stubs=('str', 'case'), timeout=900,
+    H('C10', 'c10_case_sigma_n3', '$P::c10::case_sigma::<3, 12, 9, _>', unwind=11, stubs=('str', 'case'), timeout=900,
       funcs=['common::case_mapping_rule', 'common::has_lowercase_mapping', 'char::is_lowercase (ASCII fast paths)', 'char::to_lowercase (iterator)'],
       bound='strings of 0..=3 characters over SIGMA_CASE (23 witnesses: every combination of cased/uncased, lower/upper/title, '
             '1-4 byte, growing/shrinking/multi-character mappings)'),
-    H('C10', 'c10_case_sigma_n4', 'crate::c10::case_sigma::<4, 16, 12, _>', unwind=14, stubs=('str', 'case'), tiers=T, timeout=3000, mem_gb=20,
+    H('C10', 'c10_case_sigma_n4', '$P::c10::case_sigma::<4, 16, 12, _>', unwind=14, stubs=('str', 'case'), tiers=T, timeout=3000, mem_gb=20,
       funcs=['common::case_mapping_rule', 'common::has_lowercase_mapping', 'char::to_lowercase (iterator)'],
       bound='strings of 0..=4 characters over SIGMA_CASE'),
-    H('C10', 'c10_nick_one', 'crate::c10::nick_one', unwind=4, unwindset=(('16binary_search_by', 13), ('17case_mapping_rule', 2), ('10next_match', 2), ('8try_fold', 4), ('18try_from_fn_erased', 4)),
+    H('C10', 'c10_nick_one', '$P::c10::nick_one', unwind=4, unwindset=(('16binary_search_by', 13), ('17case_mapping_rule', 2), ('10next_match', 2), ('8try_fold', 4), ('18try_from_fn_erased', 4)),
       funcs=['common::case_mapping_rule (via Nickname::case_mapping_rule)', 'char::to_lowercase'],
       bound='one character, every Unicode scalar value'),
     # ---------------------------------------------------------------- C11
-    H('C11', 'c11_width_one', 'crate::c11::width_one', unwind=3, stubs=('str',), timeout=900,
+    H('C11', 'c11_width_one', '$P::c11::width_one', unwind=3, stubs=('str',), timeout=900,
       unwindset=(('16binary_search_by', 9), ('10next_match', 2), ('18width_mapping_rule', 2)),
       funcs=['usernames::width_mapping_rule', 'usernames::get_decomposition_mapping', 'usernames::has_width_mapping',
              'WIDE_NARROW_MAPPING (generated, 16.0.0)'] + F_SEARCH,
       bound='exactly one character, every Unicode scalar value'),
-    H('C11', 'c11_width_map_n3', 'crate::c11::width_map::<3, 12, _>', unwind=5, stubs=('str', 'width'), timeout=900,
+    H('C11', 'c11_width_map_n3', '$P::c11::width_map::<3, 12, _>', unwind=5, stubs=('str', 'width'), timeout=900,
       funcs=['usernames::width_mapping_rule (both username profiles)', 'usernames::has_width_mapping'],
       bound='strings of 0..=3 characters, every character any Unicode scalar value; table lookup stubbed by the oracle (S-WIDTH)'),
-    H('C11', 'c11_width_map_n4', 'crate::c11::width_map::<4, 16, _>', unwind=6, stubs=('str', 'width'), tiers=T, timeout=3000, mem_gb=20,
+    H('C11', 'c11_width_map_n4', '$P::c11::width_map::<4, 16, _>', unwind=6, stubs=('str', 'width'), tiers=T, timeout=3000, mem_gb=20,
       funcs=['usernames::width_mapping_rule (both username profiles)', 'usernames::has_width_mapping'],
       bound='strings of 0..=4 characters, every character any Unicode scalar value; table lookup stubbed by the oracle (S-WIDTH)'),
     # ---------------------------------------------------------------- C14
-    H('C14', 'c14_id_chunk_00', 'crate::c14::id_chunk::<0, _>', unwind=12, stubs=('compat',), tiers=T, timeout=3400, mem_gb=8,
+    H('C14', 'c14_id_chunk_00', '$P::c14::id_chunk::<0, _>', unwind=12, stubs=('compat',), tiers=T, timeout=3400, mem_gb=14,
       funcs=F14, bound='IdentifierClass, every u32 in chunk 0 of 16 (the chunks partition 0..=u32::MAX; see coverage.oracle_inputs.dpv_chunks)'),
-    H('C14', 'c14_id_chunk_01', 'crate::c14::id_chunk::<1, _>', unwind=12, stubs=('compat',), tiers=T, timeout=3400, mem_gb=8,
+    H('C14', 'c14_id_chunk_01', '$P::c14::id_chunk::<1, _>', unwind=12, stubs=('compat',), tiers=T, timeout=3400, mem_gb=14,
       funcs=F14, bound='IdentifierClass, every u32 in chunk 1 of 16 (the chunks partition 0..=u32::MAX; see coverage.oracle_inputs.dpv_chunks)'),
-    H('C14', 'c14_id_chunk_02', 'crate::c14::id_chunk::<2, _>', unwind=12, stubs=('compat',), tiers=T, timeout=3400, mem_gb=8,
+    H('C14', 'c14_id_chunk_02', '$P::c14::id_chunk::<2, _>', unwind=12, stubs=('compat',), tiers=T, timeout=3400, mem_gb=14,
       funcs=F14, bound='IdentifierClass, every u32 in chunk 2 of 16 (the chunks partition 0..=u32::MAX; see coverage.oracle_inputs.dpv_chunks)'),
-    H('C14', 'c14_id_chunk_03', 'crate::c14::id_chunk::<3, _>', unwind=12, stubs=('compat',), tiers=T, timeout=3400, mem_gb=8,
+    H('C14', 'c14_id_chunk_03', '$P::c14::id_chunk::<3, _>', unwind=12, stubs=('compat',), tiers=T, timeout=3400, mem_gb=14,
       funcs=F14, bound='IdentifierClass, every u32 in chunk 3 of 16 (the chunks partition 0..=u32::MAX; see coverage.oracle_inputs.dpv_chunks)'),
-    H('C14', 'c14_id_chunk_04', 'crate::c14::id_chunk::<4, _>', unwind=12, stubs=('compat',), tiers=T, timeout=3400, mem_gb=8,
+    H('C14', 'c14_id_chunk_04', '$P::c14::id_chunk::<4, _>', unwind=12, stubs=('compat',), tiers=T, timeout=3400, mem_gb=14,
       funcs=F14, bound='IdentifierClass, every u32 in chunk 4 of 16 (the chunks partition 0..=u32::MAX; see coverage.oracle_inputs.dpv_chunks)'),
-    H('C14', 'c14_id_chunk_05', 'crate::c14::id_chunk::<5, _>', unwind=12, stubs=('compat',), tiers=T, timeout=3400, mem_gb=8,
+    H('C14', 'c14_id_chunk_05', '$P::c14::id_chunk::<5, _>', unwind=12, stubs=('compat',), tiers=T, timeout=3400, mem_gb=14,
       funcs=F14, bound='IdentifierClass, every u32 in chunk 5 of 16 (the chunks partition 0..=u32::MAX; see coverage.oracle_inputs.dpv_chunks)'),
-    H('C14', 'c14_id_chunk_06', 'crate::c14::id_chunk::<6, _>', unwind=12, stubs=('compat',), tiers=T, timeout=3400, mem_gb=8,
+    H('C14', 'c14_id_chunk_06', '$P::c14::id_chunk::<6, _>', unwind=12, stubs=('compat',), tiers=T, timeout=3400, mem_gb=14,
       funcs=F14, bound='IdentifierClass, every u32 in chunk 6 of 16 (the chunks partition 0..=u32::MAX; see coverage.oracle_inputs.dpv_chunks)'),
-    H('C14', 'c14_id_chunk_07', 'crate::c14::id_chunk::<7, _>', unwind=12, stubs=('compat',), tiers=T, timeout=3400, mem_gb=8,
+    H('C14', 'c14_id_chunk_07', '$P::c14::id_chunk::<7, _>', unwind=12, stubs=('compat',), tiers=T, timeout=3400, mem_gb=14,
       funcs=F14, bound='IdentifierClass, every u32 in chunk 7 of 16 (the chunks partition 0..=u32::MAX; see coverage.oracle_inputs.dpv_chunks)'),
-    H('C14', 'c14_id_chunk_08', 'crate::c14::id_chunk::<8, _>', unwind=12, stubs=('compat',), tiers=T, timeout=3400, mem_gb=8,
+    H('C14', 'c14_id_chunk_08', '$P::c14::id_chunk::<8, _>', unwind=12, stubs=('compat',), tiers=T, timeout=3400, mem_gb=14,
       funcs=F14, bound='IdentifierClass, every u32 in chunk 8 of 16 (the chunks partition 0..=u32::MAX; see coverage.oracle_inputs.dpv_chunks)'),
-    H('C14', 'c14_id_chunk_09', 'crate::c14::id_chunk::<9, _>', unwind=12, stubs=('compat',), tiers=T, timeout=3400, mem_gb=8,
+    H('C14', 'c14_id_chunk_09', '$P::c14::id_chunk::<9, _>', unwind=12, stubs=('compat',), tiers=T, timeout=3400, mem_gb=14,
       funcs=F14, bound='IdentifierClass, every u32 in chunk 9 of 16 (the chunks partition 0..=u32::MAX; see coverage.oracle_inputs.dpv_chunks)'),
-    H('C14', 'c14_id_chunk_10', 'crate::c14::id_chunk::<10, _>', unwind=12, stubs=('compat',), tiers=T, timeout=3400, mem_gb=8,
+    H('C14', 'c14_id_chunk_10', '$P::c14::id_chunk::<10, _>', unwind=12, stubs=('compat',), tiers=T, timeout=3400, mem_gb=14,
       funcs=F14, bound='IdentifierClass, every u32 in chunk 10 of 16 (the chunks partition 0..=u32::MAX; see coverage.oracle_inputs.dpv_chunks)'),
-    H('C14', 'c14_id_chunk_11', 'crate::c14::id_chunk::<11, _>', unwind=12, stubs=('compat',), tiers=T, timeout=3400, mem_gb=8,
+    H('C14', 'c14_id_chunk_11', '$P::c14::id_chunk::<11, _>', unwind=12, stubs=('compat',), tiers=T, timeout=3400, mem_gb=14,
       funcs=F14, bound='IdentifierClass, every u32 in chunk 11 of 16 (the chunks partition 0..=u32::MAX; see coverage.oracle_inputs.dpv_chunks)'),
-    H('C14', 'c14_id_chunk_12', 'crate::c14::id_chunk::<12, _>', unwind=12, stubs=('compat',), tiers=T, timeout=3400, mem_gb=8,
+    H('C14', 'c14_id_chunk_12', '$P::c14::id_chunk::<12, _>', unwind=12, stubs=('compat',), tiers=T, timeout=3400, mem_gb=14,
       funcs=F14, bound='IdentifierClass, every u32 in chunk 12 of 16 (the chunks partition 0..=u32::MAX; see coverage.oracle_inputs.dpv_chunks)'),
-    H('C14', 'c14_id_chunk_13', 'crate::c14::id_chunk::<13, _>', unwind=12, stubs=('compat',), tiers=T, timeout=3400, mem_gb=8,
+    H('C14', 'c14_id_chunk_13', '$P::c14::id_chunk::<13, _>', unwind=12, stubs=('compat',), tiers=T, timeout=3400, mem_gb=14,
       funcs=F14, bound='IdentifierClass, every u32 in chunk 13 of 16 (the chunks partition 0..=u32::MAX; see coverage.oracle_inputs.dpv_chunks)'),
-    H('C14', 'c14_id_chunk_14', 'crate::c14::id_chunk::<14, _>', unwind=12, stubs=('compat',), tiers=T, timeout=3400, mem_gb=8,
+    H('C14', 'c14_id_chunk_14', '$P::c14::id_chunk::<14, _>', unwind=12, stubs=('compat',), tiers=T, timeout=3400, mem_gb=14,
       funcs=F14, bound='IdentifierClass, every u32 in chunk 14 of 16 (the chunks partition 0..=u32::MAX; see coverage.oracle_inputs.dpv_chunks)'),
-    H('C14', 'c14_id_chunk_15', 'crate::c14::id_chunk::<15, _>', unwind=12, stubs=('compat',), tiers=T, timeout=3400, mem_gb=8,
+    H('C14', 'c14_id_chunk_15', '$P::c14::id_chunk::<15, _>', unwind=12, stubs=('compat',), tiers=T, timeout=3400, mem_gb=14,
       funcs=F14, bound='IdentifierClass, every u32 in chunk 15 of 16 (the chunks partition 0..=u32::MAX; see coverage.oracle_inputs.dpv_chunks)'),
-    H('C14', 'c14_free_chunk_00', 'crate::c14::free_chunk::<0, _>', unwind=12, stubs=('compat',), tiers=T, timeout=1500, mem_gb=8,
+    H('C14', 'c14_free_chunk_00', '$P::c14::free_chunk::<0, _>', unwind=12, stubs=('compat',), tiers=T, timeout=1500, mem_gb=14,
       funcs=F14, bound='FreeformClass, every u32 in chunk 0 of 16'),
-    H('C14', 'c14_free_chunk_01', 'crate::c14::free_chunk::<1, _>', unwind=12, stubs=('compat',), tiers=T, timeout=1500, mem_gb=8,
+    H('C14', 'c14_free_chunk_01', '$P::c14::free_chunk::<1, _>', unwind=12, stubs=('compat',), tiers=T, timeout=1500, mem_gb=14,
       funcs=F14, bound='FreeformClass, every u32 in chunk 1 of 16'),
-    H('C14', 'c14_free_chunk_02', 'crate::c14::free_chunk::<2, _>', unwind=12, stubs=('compat',), tiers=T, timeout=1500, mem_gb=8,
+    H('C14', 'c14_free_chunk_02', '$P::c14::free_chunk::<2, _>', unwind=12, stubs=('compat',), tiers=T, timeout=1500, mem_gb=14,
       funcs=F14, bound='FreeformClass, every u32 in chunk 2 of 16'),
-    H('C14', 'c14_free_chunk_03', 'crate::c14::free_chunk::<3, _>', unwind=12, stubs=('compat',), tiers=T, timeout=1500, mem_gb=8,
+    H('C14', 'c14_free_chunk_03', '$P::c14::free_chunk::<3, _>', unwind=12, stubs=('compat',), tiers=T, timeout=1500, mem_gb=14,
       funcs=F14, bound='FreeformClass, every u32 in chunk 3 of 16'),
-    H('C14', 'c14_free_chunk_04', 'crate::c14::free_chunk::<4, _>', unwind=12, stubs=('compat',), tiers=T, timeout=1500, mem_gb=8,
+    H('C14', 'c14_free_chunk_04', '$P::c14::free_chunk::<4, _>', unwind=12, stubs=('compat',), tiers=T, timeout=1500, mem_gb=14,
       funcs=F14, bound='FreeformClass, every u32 in chunk 4 of 16'),
-    H('C14', 'c14_free_chunk_05', 'crate::c14::free_chunk::<5, _>', unwind=12, stubs=('compat',), tiers=T, timeout=1500, mem_gb=8,
+    H('C14', 'c14_free_chunk_05', '$P::c14::free_chunk::<5, _>', unwind=12, stubs=('compat',), tiers=T, timeout=1500, mem_gb=14,
       funcs=F14, bound='FreeformClass, every u32 in chunk 5 of 16'),
-    H('C14', 'c14_free_chunk_06', 'crate::c14::free_chunk::<6, _>', unwind=12, stubs=('compat',), tiers=T, timeout=1500, mem_gb=8,
+    H('C14', 'c14_free_chunk_06', '$P::c14::free_chunk::<6, _>', unwind=12, stubs=('compat',), tiers=T, timeout=1500, mem_gb=14,
       funcs=F14, bound='FreeformClass, every u32 in chunk 6 of 16'),
-    H('C14', 'c14_free_chunk_07', 'crate::c14::free_chunk::<7, _>', unwind=12, stubs=('compat',), tiers=T, timeout=1500, mem_gb=8,
+    H('C14', 'c14_free_chunk_07', '$P::c14::free_chunk::<7, _>', unwind=12, stubs=('compat',), tiers=T, timeout=1500, mem_gb=14,
       funcs=F14, bound='FreeformClass, every u32 in chunk 7 of 16'),
-    H('C14', 'c14_free_chunk_08', 'crate::c14::free_chunk::<8, _>', unwind=12, stubs=('compat',), tiers=T, timeout=1500, mem_gb=8,
+    H('C14', 'c14_free_chunk_08', '$P::c14::free_chunk::<8, _>', unwind=12, stubs=('compat',), tiers=T, timeout=1500, mem_gb=14,
       funcs=F14, bound='FreeformClass, every u32 in chunk 8 of 16'),
-    H('C14', 'c14_free_chunk_09', 'crate::c14::free_chunk::<9, _>', unwind=12, stubs=('compat',), tiers=T, timeout=1500, mem_gb=8,
+    H('C14', 'c14_free_chunk_09', '$P::c14::free_chunk::<9, _>', unwind=12, stubs=('compat',), tiers=T, timeout=1500, mem_gb=14,
       funcs=F14, bound='FreeformClass, every u32 in chunk 9 of 16'),
-    H('C14', 'c14_free_chunk_10', 'crate::c14::free_chunk::<10, _>', unwind=12, stubs=('compat',), tiers=T, timeout=1500, mem_gb=8,
+    H('C14', 'c14_free_chunk_10', '$P::c14::free_chunk::<10, _>', unwind=12, stubs=('compat',), tiers=T, timeout=1500, mem_gb=14,
       funcs=F14, bound='FreeformClass, every u32 in chunk 10 of 16'),
-    H('C14', 'c14_free_chunk_11', 'crate::c14::free_chunk::<11, _>', unwind=12, stubs=('compat',), tiers=T, timeout=1500, mem_gb=8,
+    H('C14', 'c14_free_chunk_11', '$P::c14::free_chunk::<11, _>', unwind=12, stubs=('compat',), tiers=T, timeout=1500, mem_gb=14,
       funcs=F14, bound='FreeformClass, every u32 in chunk 11 of 16'),
-    H('C14', 'c14_free_chunk_12', 'crate::c14::free_chunk::<12, _>', unwind=12, stubs=('compat',), tiers=T, timeout=1500, mem_gb=8,
+    H('C14', 'c14_free_chunk_12', '$P::c14::free_chunk::<12, _>', unwind=12, stubs=('compat',), tiers=T, timeout=1500, mem_gb=14,
       funcs=F14, bound='FreeformClass, every u32 in chunk 12 of 16'),
-    H('C14', 'c14_free_chunk_13', 'crate::c14::free_chunk::<13, _>', unwind=12, stubs=('compat',), tiers=T, timeout=1500, mem_gb=8,
+    H('C14', 'c14_free_chunk_13', '$P::c14::free_chunk::<13, _>', unwind=12, stubs=('compat',), tiers=T, timeout=1500, mem_gb=14,
       funcs=F14, bound='FreeformClass, every u32 in chunk 13 of 16'),
-    H('C14', 'c14_free_chunk_14', 'crate::c14::free_chunk::<14, _>', unwind=12, stubs=('compat',), tiers=T, timeout=1500, mem_gb=8,
+    H('C14', 'c14_free_chunk_14', '$P::c14::free_chunk::<14, _>', unwind=12, stubs=('compat',), tiers=T, timeout=1500, mem_gb=14,
       funcs=F14, bound='FreeformClass, every u32 in chunk 14 of 16'),
-    H('C14', 'c14_free_chunk_15', 'crate::c14::free_chunk::<15, _>', unwind=12, stubs=('compat',), tiers=T, timeout=1500, mem_gb=8,
+    H('C14', 'c14_free_chunk_15', '$P::c14::free_chunk::<15, _>', unwind=12, stubs=('compat',), tiers=T, timeout=1500, mem_gb=14,
       funcs=F14, bound='FreeformClass, every u32 in chunk 15 of 16'),
-    H('C14', 'c14_pred_get_exception_val', 'crate::c14::pred_real::<0, _>', unwind=7, stubs=('pred-except:get_exception_val',), timeout=1500, mem_gb=8,
+    H('C14', 'c14_pred_get_exception_val', '$P::c14::pred_real::<0, _>', unwind=7, stubs=('pred-except:get_exception_val',), timeout=1500, mem_gb=8,
       funcs=['common::get_exception_val on its real generated tables: EXCEPTIONS (41)', 'common::is_in_table', 'stringclasses::get_derived_property_value',
              'IdentifierClass::get_value_from_codepoint'] + F_SEARCH,
       bound='every u32 (complete); binary search unwind 7 confirmed by unwinding assertions'),
-    H('C14', 'c14_pred_is_unassigned', 'crate::c14::pred_real::<1, _>', unwind=12, stubs=('pred-except:is_unassigned',), timeout=1500, mem_gb=8,
+    H('C14', 'c14_pred_is_unassigned', '$P::c14::pred_real::<1, _>', unwind=12, stubs=('pred-except:is_unassigned',), timeout=1500, mem_gb=8,
       funcs=['common::is_unassigned on its real generated tables: UNASSIGNED (542), NONCHARACTER_CODE_POINT', 'common::is_in_table', 'stringclasses::get_derived_property_value',
              'IdentifierClass::get_value_from_codepoint'] + F_SEARCH,
       bound='every u32 (complete); binary search unwind 12 confirmed by unwinding assertions'),
-    H('C14', 'c14_pred_is_ascii7', 'crate::c14::pred_real::<2, _>', unwind=3, stubs=('pred-except:is_ascii7',), timeout=1500, mem_gb=8,
+    H('C14', 'c14_pred_is_ascii7', '$P::c14::pred_real::<2, _>', unwind=3, stubs=('pred-except:is_ascii7',), timeout=1500, mem_gb=8,
       funcs=['common::is_ascii7 on its real generated tables: ASCII7', 'common::is_in_table', 'stringclasses::get_derived_property_value',
              'IdentifierClass::get_value_from_codepoint'] + F_SEARCH,
       bound='every u32 (complete); binary search unwind 3 confirmed by unwinding assertions'),
-    H('C14', 'c14_pred_is_join_control', 'crate::c14::pred_real::<3, _>', unwind=3, stubs=('pred-except:is_join_control',), timeout=1500, mem_gb=8,
+    H('C14', 'c14_pred_is_join_control', '$P::c14::pred_real::<3, _>', unwind=3, stubs=('pred-except:is_join_control',), timeout=1500, mem_gb=8,
       funcs=['common::is_join_control on its real generated tables: JOIN_CONTROL', 'common::is_in_table', 'stringclasses::get_derived_property_value',
              'IdentifierClass::get_value_from_codepoint'] + F_SEARCH,
       bound='every u32 (complete); binary search unwind 3 confirmed by unwinding assertions'),
-    H('C14', 'c14_pred_is_old_hangul_jamo', 'crate::c14::pred_real::<4, _>', unwind=5, stubs=('pred-except:is_old_hangul_jamo',), timeout=1500, mem_gb=8,
+    H('C14', 'c14_pred_is_old_hangul_jamo', '$P::c14::pred_real::<4, _>', unwind=5, stubs=('pred-except:is_old_hangul_jamo',), timeout=1500, mem_gb=8,
       funcs=['common::is_old_hangul_jamo on its real generated tables: LEADING/VOWEL/TRAILING_JAMO', 'common::is_in_table', 'stringclasses::get_derived_property_value',
              'IdentifierClass::get_value_from_codepoint'] + F_SEARCH,
       bound='every u32 (complete); binary search unwind 5 confirmed by unwinding assertions'),
-    H('C14', 'c14_pred_is_precis_ignorable_property', 'crate::c14::pred_real::<5, _>', unwind=7, stubs=('pred-except:is_precis_ignorable_property',), timeout=1500, mem_gb=8,
+    H('C14', 'c14_pred_is_precis_ignorable_property', '$P::c14::pred_real::<5, _>', unwind=7, stubs=('pred-except:is_precis_ignorable_property',), timeout=1500, mem_gb=8,
       funcs=['common::is_precis_ignorable_property on its real generated tables: DEFAULT_IGNORABLE_CODE_POINT, NONCHARACTER_CODE_POINT', 'common::is_in_table', 'stringclasses::get_derived_property_value',
              'IdentifierClass::get_value_from_codepoint'] + F_SEARCH,
       bound='every u32 (complete); binary search unwind 7 confirmed by unwinding assertions'),
-    H('C14', 'c14_pred_is_control', 'crate::c14::pred_real::<6, _>', unwind=4, stubs=('pred-except:is_control',), timeout=1500, mem_gb=8,
+    H('C14', 'c14_pred_is_control', '$P::c14::pred_real::<6, _>', unwind=4, stubs=('pred-except:is_control',), timeout=1500, mem_gb=8,
       funcs=['common::is_control on its real generated tables: CONTROL', 'common::is_in_table', 'stringclasses::get_derived_property_value',
              'IdentifierClass::get_value_from_codepoint'] + F_SEARCH,
       bound='every u32 (complete); binary search unwind 4 confirmed by unwinding assertions'),
-    H('C14', 'c14_pred_is_letter_digit', 'crate::c14::pred_real::<8, _>', unwind=12, stubs=('pred-except:is_letter_digit',), timeout=1500, mem_gb=8,
+    H('C14', 'c14_pred_is_letter_digit', '$P::c14::pred_real::<8, _>', unwind=12, stubs=('pred-except:is_letter_digit',), timeout=1500, mem_gb=8,
       funcs=['common::is_letter_digit on its real generated tables: Ll, Lu, Lo, Nd, Lm, Mn, Mc tables', 'common::is_in_table', 'stringclasses::get_derived_property_value',
              'IdentifierClass::get_value_from_codepoint'] + F_SEARCH,
       bound='every u32 (complete); binary search unwind 12 confirmed by unwinding assertions'),
-    H('C14', 'c14_pred_is_other_letter_digit', 'crate::c14::pred_real::<9, _>', unwind=9, stubs=('pred-except:is_other_letter_digit',), timeout=1500, mem_gb=8,
+    H('C14', 'c14_pred_is_other_letter_digit', '$P::c14::pred_real::<9, _>', unwind=9, stubs=('pred-except:is_other_letter_digit',), timeout=1500, mem_gb=8,
       funcs=['common::is_other_letter_digit on its real generated tables: Lt, Nl, No, Me tables', 'common::is_in_table', 'stringclasses::get_derived_property_value',
              'IdentifierClass::get_value_from_codepoint'] + F_SEARCH,
       bound='every u32 (complete); binary search unwind 9 confirmed by unwinding assertions'),
-    H('C14', 'c14_pred_is_space', 'crate::c14::pred_real::<10, _>', unwind=5, stubs=('pred-except:is_space',), timeout=1500, mem_gb=8,
+    H('C14', 'c14_pred_is_space', '$P::c14::pred_real::<10, _>', unwind=5, stubs=('pred-except:is_space',), timeout=1500, mem_gb=8,
       funcs=['common::is_space on its real generated tables: SPACE_SEPARATOR', 'common::is_in_table', 'stringclasses::get_derived_property_value',
              'IdentifierClass::get_value_from_codepoint'] + F_SEARCH,
       bound='every u32 (complete); binary search unwind 5 confirmed by unwinding assertions'),
-    H('C14', 'c14_pred_is_symbol', 'crate::c14::pred_real::<11, _>', unwind=10, stubs=('pred-except:is_symbol',), timeout=1500, mem_gb=8,
+    H('C14', 'c14_pred_is_symbol', '$P::c14::pred_real::<11, _>', unwind=10, stubs=('pred-except:is_symbol',), timeout=1500, mem_gb=8,
       funcs=['common::is_symbol on its real generated tables: Sm, Sc, Sk, So tables', 'common::is_in_table', 'stringclasses::get_derived_property_value',
              'IdentifierClass::get_value_from_codepoint'] + F_SEARCH,
       bound='every u32 (complete); binary search unwind 10 confirmed by unwinding assertions'),
-    H('C14', 'c14_pred_is_punctuation', 'crate::c14::pred_real::<12, _>', unwind=10, stubs=('pred-except:is_punctuation',), timeout=1500, mem_gb=8,
+    H('C14', 'c14_pred_is_punctuation', '$P::c14::pred_real::<12, _>', unwind=10, stubs=('pred-except:is_punctuation',), timeout=1500, mem_gb=8,
       funcs=['common::is_punctuation on its real generated tables: Pc, Pd, Ps, Pe, Pi, Pf, Po tables', 'common::is_in_table', 'stringclasses::get_derived_property_value',
              'IdentifierClass::get_value_from_codepoint'] + F_SEARCH,
       bound='every u32 (complete); binary search unwind 10 confirmed by unwinding assertions'),
-    H('C14', 'c14_pairing', 'crate::c14::pairing', unwind=2, stubs=('pred',), timeout=600,
+    H('C14', 'c14_pairing', '$P::c14::pairing', unwind=2, stubs=('pred',), timeout=600,
       funcs=['stringclasses::get_derived_property_value', 'IdentifierClass/FreeformClass::{get_value_from_codepoint, get_value_from_char}',
              'SpecificDerivedPropertyValue callbacks of both classes'],
       bound='any u32, ANY outcome of every table predicate (loop-free): complete'),
-    H('C14', 'c14_decision_order', 'crate::c14::decision_order', unwind=2, stubs=('pred',), timeout=600,
+    H('C14', 'c14_decision_order', '$P::c14::decision_order', unwind=2, stubs=('pred',), timeout=600,
       funcs=['stringclasses::get_derived_property_value'],
       bound='any u32, ANY outcome of every table predicate (loop-free): complete'),
+    # ---------------------------------------------------------------- C03
+    H('C03', 'c03_nb_zwj', '$P::c03::nb_zwj', unwind=5, unwindset=(('16binary_search_by', 8),), timeout=1200,
+      funcs=['context::rule_zero_width_joiner, common::is_virama (VIRAMA table)'] + F_SEARCH,
+      bound='the inspected neighbour is any Unicode scalar value (complete per role); companions concrete'),
+    H('C03', 'c03_nb_zwnj_before', '$P::c03::nb_zwnj_before', unwind=5, unwindset=(('16binary_search_by', 10),), timeout=1200,
+      funcs=['context::rule_zero_width_nonjoiner, common::is_virama/is_transparent/is_left_joining/is_dual_joining (real tables)'] + F_SEARCH,
+      bound='the inspected neighbour is any Unicode scalar value (complete per role); companions concrete'),
+    H('C03', 'c03_nb_zwnj_after', '$P::c03::nb_zwnj_after', unwind=5, unwindset=(('16binary_search_by', 10),), timeout=1200,
+      funcs=['context::rule_zero_width_nonjoiner, common::is_transparent/is_right_joining/is_dual_joining (real tables)'] + F_SEARCH,
+      bound='the inspected neighbour is any Unicode scalar value (complete per role); companions concrete'),
+    H('C03', 'c03_nb_keraia', '$P::c03::nb_keraia', unwind=5, unwindset=(('16binary_search_by', 8),), timeout=1200,
+      funcs=['context::rule_greek_lower_numeral_sign_keraia, common::is_greek (GREEK table)'] + F_SEARCH,
+      bound='the inspected neighbour is any Unicode scalar value (complete per role); companions concrete'),
+    H('C03', 'c03_nb_hebrew', '$P::c03::nb_hebrew', unwind=5, unwindset=(('16binary_search_by', 7),), timeout=1200,
+      funcs=['context::rule_hebrew_punctuation, common::is_hebrew (HEBREW table)'] + F_SEARCH,
+      bound='the inspected neighbour is any Unicode scalar value (complete per role); companions concrete'),
+    H('C03', 'c03_nb_katakana', '$P::c03::nb_katakana', unwind=5, unwindset=(('16binary_search_by', 8),), timeout=1200,
+      funcs=['context::rule_katakana_middle_dot, common::is_hiragana/is_katakana/is_han (real tables)'] + F_SEARCH,
+      bound='the inspected neighbour is any Unicode scalar value (complete per role); companions concrete'),
+    H('C03', 'c03_rule_zwj_n3', '$P::c03::rule_zwj::<3, 12, _>', unwind=6, stubs=('ctx',), timeout=1200,
+      funcs=['context::rule_zero_width_joiner', 'context::before', 'context::after'],
+      bound='labels of 0..=3 characters, every character any Unicode scalar value; offset ANY usize'),
+    H('C03', 'c03_rule_zwj_n5', '$P::c03::rule_zwj::<5, 20, _>', unwind=8, stubs=('ctx',), tiers=T, timeout=3000, mem_gb=20,
+      funcs=['context::rule_zero_width_joiner', 'context::before', 'context::after'],
+      bound='labels of 0..=5 characters, every character any Unicode scalar value; offset ANY usize'),
+    H('C03', 'c03_rule_middle_dot_n3', '$P::c03::rule_middle_dot_b::<3, 12, _>', unwind=6, stubs=('ctx',), timeout=1200,
+      funcs=['context::rule_middle_dot', 'context::before', 'context::after'],
+      bound='labels of 0..=3 characters, every character any Unicode scalar value; offset ANY usize'),
+    H('C03', 'c03_rule_middle_dot_n5', '$P::c03::rule_middle_dot_b::<5, 20, _>', unwind=8, stubs=('ctx',), tiers=T, timeout=3000, mem_gb=20,
+      funcs=['context::rule_middle_dot', 'context::before', 'context::after'],
+      bound='labels of 0..=5 characters, every character any Unicode scalar value; offset ANY usize'),
+    H('C03', 'c03_rule_keraia_n3', '$P::c03::rule_keraia_b::<3, 12, _>', unwind=6, stubs=('ctx',), timeout=1200,
+      funcs=['context::rule_greek_lower_numeral_sign_keraia', 'context::before', 'context::after'],
+      bound='labels of 0..=3 characters, every character any Unicode scalar value; offset ANY usize'),
+    H('C03', 'c03_rule_keraia_n5', '$P::c03::rule_keraia_b::<5, 20, _>', unwind=8, stubs=('ctx',), tiers=T, timeout=3000, mem_gb=20,
+      funcs=['context::rule_greek_lower_numeral_sign_keraia', 'context::before', 'context::after'],
+      bound='labels of 0..=5 characters, every character any Unicode scalar value; offset ANY usize'),
+    H('C03', 'c03_rule_hebrew_n3', '$P::c03::rule_hebrew_b::<3, 12, _>', unwind=6, stubs=('ctx',), timeout=1200,
+      funcs=['context::rule_hebrew_punctuation', 'context::before', 'context::after'],
+      bound='labels of 0..=3 characters, every character any Unicode scalar value; offset ANY usize'),
+    H('C03', 'c03_rule_hebrew_n5', '$P::c03::rule_hebrew_b::<5, 20, _>', unwind=8, stubs=('ctx',), tiers=T, timeout=3000, mem_gb=20,
+      funcs=['context::rule_hebrew_punctuation', 'context::before', 'context::after'],
+      bound='labels of 0..=5 characters, every character any Unicode scalar value; offset ANY usize'),
+    H('C03', 'c03_rule_katakana_n3', '$P::c03::rule_katakana_b::<3, 12, _>', unwind=6, stubs=('ctx',), timeout=1200,
+      funcs=['context::rule_katakana_middle_dot', 'context::before', 'context::after'],
+      bound='labels of 0..=3 characters, every character any Unicode scalar value; offset ANY usize'),
+    H('C03', 'c03_rule_katakana_n5', '$P::c03::rule_katakana_b::<5, 20, _>', unwind=8, stubs=('ctx',), tiers=T, timeout=3000, mem_gb=20,
+      funcs=['context::rule_katakana_middle_dot', 'context::before', 'context::after'],
+      bound='labels of 0..=5 characters, every character any Unicode scalar value; offset ANY usize'),
+    H('C03', 'c03_rule_arabic_n3', '$P::c03::rule_arabic_b::<3, 12, _>', unwind=6, stubs=('ctx',), timeout=1200,
+      funcs=['context::rule_arabic_indic_digits', 'context::before', 'context::after'],
+      bound='labels of 0..=3 characters, every character any Unicode scalar value; offset ANY usize'),
+    H('C03', 'c03_rule_arabic_n5', '$P::c03::rule_arabic_b::<5, 20, _>', unwind=8, stubs=('ctx',), tiers=T, timeout=3000, mem_gb=20,
+      funcs=['context::rule_arabic_indic_digits', 'context::before', 'context::after'],
+      bound='labels of 0..=5 characters, every character any Unicode scalar value; offset ANY usize'),
+    H('C03', 'c03_rule_ext_arabic_n3', '$P::c03::rule_ext_arabic_b::<3, 12, _>', unwind=6, stubs=('ctx',), timeout=1200,
+      funcs=['context::rule_extended_arabic_indic_digits', 'context::before', 'context::after'],
+      bound='labels of 0..=3 characters, every character any Unicode scalar value; offset ANY usize'),
+    H('C03', 'c03_rule_ext_arabic_n5', '$P::c03::rule_ext_arabic_b::<5, 20, _>', unwind=8, stubs=('ctx',), tiers=T, timeout=3000, mem_gb=20,
+      funcs=['context::rule_extended_arabic_indic_digits', 'context::before', 'context::after'],
+      bound='labels of 0..=5 characters, every character any Unicode scalar value; offset ANY usize'),
+    H('C03', 'c03_rule_zwnj_n4', '$P::c03::rule_zwnj_b::<4, 16, _>', unwind=6, unwindset=(('25rule_zero_width_nonjoiner', 5),), stubs=('ctx',), timeout=1500, mem_gb=30,
+      funcs=['context::rule_zero_width_nonjoiner', 'context::before', 'context::after'],
+      bound='labels of 0..=4 characters, every character any Unicode scalar value; offset ANY usize'),
+    H('C03', 'c03_rule_zwnj_n6', '$P::c03::rule_zwnj_b::<6, 24, _>', unwind=9, stubs=('ctx',), tiers=T, timeout=3400, mem_gb=24,
+      funcs=['context::rule_zero_width_nonjoiner', 'context::before', 'context::after'],
+      bound='labels of 0..=6 characters (transparent runs on both sides), every character any Unicode scalar value; offset ANY usize'),
+    H('C03', 'c03_registry', '$P::c03::registry', unwind=4, stubs=('ctx',), timeout=900,
+      funcs=['context::get_context_rule', 'all nine rule functions through the returned function pointer'],
+      bound='every u32 (complete)'),
+    # ---------------------------------------------------------------- C02
+    H('C02', 'c02_any_class_n4', '$P::c02::any_class::<4, 16, _>', unwind=9, stubs=('rule',), timeout=1500, mem_gb=16,
+      funcs=['StringClass::allows (default method)', 'stringclasses::allowed_by_context_rule', 'context::get_context_rule', 'the nine context rules'],
+      bound='labels of 0..=4 characters, every character any Unicode scalar value; derived property values, rule registry and '
+            'rule outcomes = ANY functions (user-supplied class)'),
+    H('C02', 'c02_std_class_n2', '$P::c02::std_class::<2, 8, _>', unwind=5, stubs=('ctx', 'dpv'), tiers=T, timeout=3400, mem_gb=24,
+      funcs=['IdentifierClass::allows', 'FreeformClass::allows', 'stringclasses::allowed_by_context_rule', 'context::get_context_rule'],
+      bound='labels of 0..=2 characters, every character any Unicode scalar value; both standard classes, real registry and rules'),
+    H('C02', 'c02_any_class_n6', '$P::c02::any_class::<6, 24, _>', unwind=9, stubs=('rule',), tiers=T, timeout=3400, mem_gb=24,
+      funcs=['StringClass::allows (default method)', 'stringclasses::allowed_by_context_rule', 'context::get_context_rule', 'the nine context rules'],
+      bound='labels of 0..=6 characters, every character any Unicode scalar value; values, registry, rule outcomes = ANY functions'),
+    H('C02', 'c02_std_class_n3', '$P::c02::std_class::<3, 12, _>', unwind=6, stubs=('ctx', 'dpv'), tiers=T, timeout=3400, mem_gb=30,
+      funcs=['IdentifierClass::allows', 'FreeformClass::allows', 'stringclasses::allowed_by_context_rule', 'context::get_context_rule'],
+      bound='labels of 0..=3 characters, every character any Unicode scalar value; both standard classes, real registry and rules'),
+    # ---------------------------------------------------------------- C09 (in-crate: precis-profiles)
+    H('C09', 'c09_class_chunk_0', '$P::c09::class_chunk::<0, _>', crate='profiles', unwind=13, timeout=1500, mem_gb=10,
+      funcs=['bidi::bidi_class_cp', 'BIDI_CLASS_TABLE (generated, 16.0.0, 1570 entries)'] + F_SEARCH,
+      bound='every u32 in chunk 0 of 8 (the chunks partition 0..=u32::MAX); assigned code points compared, unassigned only executed'),
+    H('C09', 'c09_class_chunk_1', '$P::c09::class_chunk::<1, _>', crate='profiles', unwind=13, timeout=1500, mem_gb=10,
+      funcs=['bidi::bidi_class_cp', 'BIDI_CLASS_TABLE (generated, 16.0.0, 1570 entries)'] + F_SEARCH,
+      bound='every u32 in chunk 1 of 8 (the chunks partition 0..=u32::MAX); assigned code points compared, unassigned only executed'),
+    H('C09', 'c09_class_chunk_2', '$P::c09::class_chunk::<2, _>', crate='profiles', unwind=13, timeout=1500, mem_gb=10,
+      funcs=['bidi::bidi_class_cp', 'BIDI_CLASS_TABLE (generated, 16.0.0, 1570 entries)'] + F_SEARCH,
+      bound='every u32 in chunk 2 of 8 (the chunks partition 0..=u32::MAX); assigned code points compared, unassigned only executed'),
+    H('C09', 'c09_class_chunk_3', '$P::c09::class_chunk::<3, _>', crate='profiles', unwind=13, timeout=1500, mem_gb=10,
+      funcs=['bidi::bidi_class_cp', 'BIDI_CLASS_TABLE (generated, 16.0.0, 1570 entries)'] + F_SEARCH,
+      bound='every u32 in chunk 3 of 8 (the chunks partition 0..=u32::MAX); assigned code points compared, unassigned only executed'),
+    H('C09', 'c09_class_chunk_4', '$P::c09::class_chunk::<4, _>', crate='profiles', unwind=13, timeout=1500, mem_gb=10,
+      funcs=['bidi::bidi_class_cp', 'BIDI_CLASS_TABLE (generated, 16.0.0, 1570 entries)'] + F_SEARCH,
+      bound='every u32 in chunk 4 of 8 (the chunks partition 0..=u32::MAX); assigned code points compared, unassigned only executed'),
+    H('C09', 'c09_class_chunk_5', '$P::c09::class_chunk::<5, _>', crate='profiles', unwind=13, timeout=1500, mem_gb=10,
+      funcs=['bidi::bidi_class_cp', 'BIDI_CLASS_TABLE (generated, 16.0.0, 1570 entries)'] + F_SEARCH,
+      bound='every u32 in chunk 5 of 8 (the chunks partition 0..=u32::MAX); assigned code points compared, unassigned only executed'),
+    H('C09', 'c09_class_chunk_6', '$P::c09::class_chunk::<6, _>', crate='profiles', unwind=13, timeout=1500, mem_gb=10,
+      funcs=['bidi::bidi_class_cp', 'BIDI_CLASS_TABLE (generated, 16.0.0, 1570 entries)'] + F_SEARCH,
+      bound='every u32 in chunk 6 of 8 (the chunks partition 0..=u32::MAX); assigned code points compared, unassigned only executed'),
+    H('C09', 'c09_class_chunk_7', '$P::c09::class_chunk::<7, _>', crate='profiles', unwind=13, timeout=1500, mem_gb=10,
+      funcs=['bidi::bidi_class_cp', 'BIDI_CLASS_TABLE (generated, 16.0.0, 1570 entries)'] + F_SEARCH,
+      bound='every u32 in chunk 7 of 8 (the chunks partition 0..=u32::MAX); assigned code points compared, unassigned only executed'),
+    H('C09', 'c09_bidi_rule_n4', '$P::c09::bidi_rule::<4, 16, _>', crate='profiles', unwind=7, stubs=('bidiw',), timeout=1500, mem_gb=16,
+      funcs=['usernames::directionality_rule (via both username profiles)', 'bidi::has_rtl', 'bidi::satisfy_bidi_rule', 'bidi::is_valid_rtl_label', 'bidi::is_valid_ltr_label', 'bidi::bidi_class'],
+      bound='every sequence of 0..=4 characters over the 23 Bidi classes (one witness character per class)'),
+    H('C09', 'c09_bidi_rule_n6', '$P::c09::bidi_rule::<6, 24, _>', crate='profiles', unwind=9, stubs=('bidiw',), tiers=T, timeout=3400, mem_gb=24,
+      funcs=['usernames::directionality_rule (via both username profiles)', 'bidi::has_rtl', 'bidi::satisfy_bidi_rule', 'bidi::is_valid_rtl_label', 'bidi::is_valid_ltr_label', 'bidi::bidi_class'],
+      bound='every sequence of 0..=6 characters over the 23 Bidi classes (one witness character per class)'),
+    # ---------------------------------------------------------------- C15 (in-crate: precis-tools)
+    H('C15', 'c15_unassigned_k3', '$P::c15::unassigned::<3, 5, _>', crate='tools', unwind=7, stubs=('tools',), timeout=900,
+      funcs=['UnassignedTableGen::process_entry', 'common::add_codepoints'],
+      bound='3 ascending disjoint UnicodeData entries (each Single or Range, any code points <= U+10FFFD), any probe code point'),
+    H('C15', 'c15_unassigned_k5', '$P::c15::unassigned::<5, 7, _>', crate='tools', unwind=9, stubs=('tools',), tiers=T, timeout=3000, mem_gb=16,
+      funcs=['UnassignedTableGen::process_entry', 'common::add_codepoints'],
+      bound='5 ascending disjoint UnicodeData entries, any probe code point'),
+    H('C15', 'c15_bidi_compress_k3', '$P::c15::bidi_compress::<3, 6, _>', crate='tools', unwind=8, stubs=('tools',), timeout=900, mem_gb=16,
+      funcs=['BidiClassGen::compress_into_ranges', 'bidi_class::add_range'],
+      bound='3 ascending disjoint entries (Single or Range) with any of 3 classes, any probe code point'),
+    H('C15', 'c15_bidi_compress_k4', '$P::c15::bidi_compress::<4, 8, _>', crate='tools', unwind=10, stubs=('tools',), tiers=T, timeout=3000, mem_gb=20,
+      funcs=['BidiClassGen::compress_into_ranges', 'bidi_class::add_range'],
+      bound='4 ascending disjoint entries with any of 3 classes, any probe code point'),
+    H('C15', 'c15_width_collect', '$P::c15::width_collect', crate='tools', unwind=3, stubs=('tools',), timeout=600,
+      funcs=['WidthMappingTableGen::process_entry'],
+      bound='one entry, any code point, any mapping, tags none/wide/narrow/compat/font'),
 ]
 
 PROPS = ['C%02d' % i for i in range(1, 19)]
@@ -339,17 +506,18 @@ def gen_proofs(crate):
         for t, r in h.stub_pairs():
             out.append('    #[kani::stub(%s, %s)]' % (t, r))
         out.append('    pub fn %s() {' % h.name)
-        out.append('        let mut s = crate::sup::KSrc;')
-        out.append('        %s(&mut s);' % h.body)
+        out.append('        let mut s = %s::sup::KSrc;' % CRATE_PREFIX[crate])
+        out.append('        %s(&mut s);' % h.body.replace('$P', CRATE_PREFIX[crate]))
         out.append('    }')
     out.append('}')
     out.append('#[cfg(not(kani))]')
     out.append('#[allow(dead_code)]')
     out.append('/// native replay dispatch (generated)')
-    out.append('pub fn dispatch(name: &str, s: &mut crate::sup::RSrc) -> bool {')
+    out.append('pub fn dispatch(name: &str, s: &mut %s::sup::RSrc) -> bool {' % CRATE_PREFIX[crate])
+    out.append('')
     for h in hs:
         out.append('    if name == "%s" {' % h.name)
-        out.append('        %s(s);' % h.body)
+        out.append('        %s(s);' % h.body.replace('$P', CRATE_PREFIX[crate]))
         out.append('        return true;')
         out.append('    }')
     out.append('    let _ = s;')
